@@ -636,6 +636,117 @@ fn run_shape(c: &ShapeCase) -> Outcome {
                 }
             }
         }
+        6 => {
+            // signatures built through the API with one subpacket of each kind (and each key flag,
+            // each feature flag, lists of several sizes): lengths truthful, round trip exact, verifies
+            use pgp::crypto::{aead::AeadAlgorithm, hash::HashAlgorithm, sym::SymmetricKeyAlgorithm};
+            use pgp::packet::{Features, KeyFlags, Notation, RevocationCode, SignatureConfig, SignatureType};
+            use pgp::types::{CompressionAlgorithm, KeyDetails, Password};
+            let cert = common::cert(if c.n % 2 == 0 { KeyKind::Ed25519V4 } else { KeyKind::Ed25519V6 }, 1);
+            let key = &cert.primary_key;
+            let mut datas: Vec<(String, SubpacketData)> = Vec::new();
+            type Setter = fn(&mut KeyFlags, bool);
+            let setters: [(&str, Setter); 9] = [
+                ("certify", KeyFlags::set_certify),
+                ("encrypt_comms", KeyFlags::set_encrypt_comms),
+                ("encrypt_storage", KeyFlags::set_encrypt_storage),
+                ("sign", KeyFlags::set_sign),
+                ("shared", KeyFlags::set_shared),
+                ("authentication", KeyFlags::set_authentication),
+                ("group", KeyFlags::set_group),
+                ("adsk", KeyFlags::set_adsk),
+                ("timestamping", KeyFlags::set_timestamping),
+            ];
+            for (name, set) in setters {
+                let mut f = KeyFlags::default();
+                set(&mut f, true);
+                datas.push((format!("KeyFlags({name})"), SubpacketData::KeyFlags(f)));
+            }
+            let mut all = KeyFlags::default();
+            for (_, set) in setters {
+                set(&mut all, true);
+            }
+            datas.push(("KeyFlags(all)".into(), SubpacketData::KeyFlags(all)));
+            datas.push(("KeyFlags(none)".into(), SubpacketData::KeyFlags(KeyFlags::default())));
+            for (v1, v2) in [(false, false), (true, false), (false, true), (true, true)] {
+                let mut f = Features::default();
+                f.set_seipd_v1(v1);
+                f.set_seipd_v2(v2);
+                datas.push((format!("Features({v1},{v2})"), SubpacketData::Features(f)));
+            }
+            for n in [0usize, 1, 5] {
+                datas.push((format!("PreferredSymmetricAlgorithms[{n}]"), SubpacketData::PreferredSymmetricAlgorithms(std::iter::repeat(SymmetricKeyAlgorithm::AES256).take(n).collect())));
+                datas.push((format!("PreferredHashAlgorithms[{n}]"), SubpacketData::PreferredHashAlgorithms(std::iter::repeat(HashAlgorithm::Sha512).take(n).collect())));
+                datas.push((format!("PreferredCompressionAlgorithms[{n}]"), SubpacketData::PreferredCompressionAlgorithms(std::iter::repeat(CompressionAlgorithm::ZLIB).take(n).collect())));
+                datas.push((format!("PreferredAeadAlgorithms[{n}]"), SubpacketData::PreferredAeadAlgorithms(std::iter::repeat((SymmetricKeyAlgorithm::AES128, AeadAlgorithm::Ocb)).take(n.min(4)).collect())));
+                datas.push((format!("KeyServerPreferences[{n}]"), SubpacketData::KeyServerPreferences(std::iter::repeat(0x80u8).take(n.min(4)).collect())));
+            }
+            datas.push(("SignatureExpirationTime".into(), SubpacketData::SignatureExpirationTime(pgp::types::Duration::from_secs(3600))));
+            datas.push(("KeyExpirationTime".into(), SubpacketData::KeyExpirationTime(pgp::types::Duration::from_secs(86400))));
+            datas.push(("IssuerKeyId".into(), SubpacketData::IssuerKeyId(key.legacy_key_id())));
+            datas.push(("IssuerFingerprint".into(), SubpacketData::IssuerFingerprint(key.fingerprint())));
+            datas.push(("IntendedRecipientFingerprint".into(), SubpacketData::IntendedRecipientFingerprint(key.fingerprint())));
+            datas.push(("RevocationReason".into(), SubpacketData::RevocationReason(RevocationCode::KeyRetired, "retired".into())));
+            datas.push(("IsPrimary".into(), SubpacketData::IsPrimary(true)));
+            datas.push(("Revocable".into(), SubpacketData::Revocable(false)));
+            datas.push(("ExportableCertification".into(), SubpacketData::ExportableCertification(false)));
+            datas.push(("PreferredKeyServer".into(), SubpacketData::PreferredKeyServer("hkps://keys.example.org".into())));
+            datas.push(("PolicyURI".into(), SubpacketData::PolicyURI("https://example.org/policy".into())));
+            datas.push(("SignersUserID".into(), SubpacketData::SignersUserID("a@example.org".into())));
+            datas.push(("TrustSignature".into(), SubpacketData::TrustSignature(1, 120)));
+            datas.push(("RegularExpression".into(), SubpacketData::RegularExpression("<[^>]+[@.]example\\.org>$".into())));
+            datas.push(("Notation".into(), SubpacketData::Notation(Notation { readable: true, name: "n@example.org".into(), value: "v".into() })));
+            datas.push(("Experimental".into(), SubpacketData::Experimental(101, vec![1, 2, 3].into())));
+            datas.push(("Other".into(), SubpacketData::Other(60, vec![9; 200].into())));
+            let (name, data) = &datas[c.n / 2 % datas.len()];
+            for critical in [false, true] {
+                let sp = if critical { Subpacket::critical(data.clone()) } else { Subpacket::regular(data.clone()) };
+                let sp = match sp {
+                    Ok(s) => s,
+                    Err(e) => {
+                        o.push("C05:api-subpacket:constructor-error", format!("{name}: {e}"));
+                        continue;
+                    }
+                };
+                let mk = || -> pgp::errors::Result<pgp::packet::Signature> {
+                    let mut cfg = SignatureConfig::from_key(crate::engine::rng(3), key, SignatureType::Binary)?;
+                    cfg.hashed_subpackets = vec![
+                        Subpacket::regular(SubpacketData::SignatureCreationTime(Timestamp::from_secs(common::NOW)))?,
+                        sp.clone(),
+                    ];
+                    cfg.sign(key, &Password::empty(), &b"x"[..])
+                };
+                match mk() {
+                    Ok(sig) => {
+                        let body = sig.to_bytes().unwrap_or_default();
+                        if sig.write_len() != body.len() {
+                            o.push("C05:api-subpacket:write_len-differs", format!("{name} critical={critical}: {} vs {}", sig.write_len(), body.len()));
+                        }
+                        if sp.write_len() != sp.to_bytes().map(|b| b.len()).unwrap_or(0) {
+                            o.push("C05:api-subpacket:subpacket-write_len-differs", format!("{name} critical={critical}"));
+                        }
+                        fidelity(2, &body, &format!("API-built signature with {name} (critical={critical})"), Identity::Full, &mut o);
+                        match sigs::sig_from_body(&body) {
+                            Ok(s2) => {
+                                // an unknown critical subpacket legitimately fails verification
+                                let expect_ok = !(critical && matches!(data, SubpacketData::Other(..)));
+                                let v = s2.verify(key.public_key(), &b"x"[..]);
+                                if v.is_err() && expect_ok {
+                                    o.push("C05:api-subpacket:reparsed-signature-does-not-verify", format!("{name} critical={critical}: {:?}", v.err().map(|e| e.to_string())));
+                                }
+                            }
+                            Err(e) => o.push("C05:api-subpacket:own-signature-does-not-parse", format!("{name} critical={critical}: {e}")),
+                        }
+                    }
+                    Err(e) => {
+                        // refusing to sign an unknown critical subpacket is by design
+                        if !(critical && matches!(data, SubpacketData::Other(..))) {
+                            o.push("C05:api-subpacket:sign-error", format!("{name}: {e}"));
+                        }
+                    }
+                }
+            }
+        }
         _ => {
             // composite objects: write_len = bytes written; re-import equal
             let kinds = [KeyKind::Ed25519V4, KeyKind::Ed25519V6, KeyKind::EcdsaP256V4, KeyKind::Rsa2048V4, KeyKind::Ed25519LegacyV4, KeyKind::Ed448V6];
@@ -653,6 +764,30 @@ fn run_shape(c: &ShapeCase) -> Outcome {
                 Err(e) => o.push(format!("C05:composite:{name}:serialisation-error"), format!("{kind:?}: {e}")),
             };
             chk("SignedSecretKey", cert.write_len(), cert.to_bytes(), &mut o);
+            // the same certificate with its packets locked through the API (body sizes change,
+            // crossing the 192-octet length class for the larger keys)
+            if kind != KeyKind::Rsa2048V4 {
+                let mut locked = (*cert).clone();
+                let pw = pgp::types::Password::from("composite");
+                let p = crate::props::c08::PARAM_SET[if kind.is_v6() { 5 } else { c.n % 4 }];
+                let r1 = locked.primary_key.set_password_with_s2k(&pw, crate::props::c08::lib_params_pub(&p, 1));
+                let r2 = locked.secret_subkeys[0].key.set_password_with_s2k(&pw, crate::props::c08::lib_params_pub(&p, 2));
+                if r1.is_ok() && r2.is_ok() {
+                    chk("SignedSecretKey(locked)", locked.write_len(), locked.to_bytes(), &mut o);
+                    let mut v = Vec::new();
+                    let _ = locked.primary_key.to_writer_with_header(&mut v);
+                    if locked.primary_key.write_len_with_header() != v.len() {
+                        o.push("C05:composite:SecretKey(locked):write_len_with_header-differs", format!("{kind:?}: {} vs {}", locked.primary_key.write_len_with_header(), v.len()));
+                    }
+                    if let Ok(b) = locked.to_bytes() {
+                        match SignedSecretKey::from_bytes(&b[..]) {
+                            Ok(k2) if k2 == locked => {}
+                            Ok(_) => o.push("C05:composite:SignedSecretKey(locked):reimport-differs", format!("{kind:?}")),
+                            Err(e) => o.push("C05:composite:SignedSecretKey(locked):reimport-fails", format!("{kind:?}: {e}")),
+                        }
+                    }
+                }
+            }
             let public = cert.to_public_key();
             chk("SignedPublicKey", public.write_len(), public.to_bytes(), &mut o);
             chk("SignedKeyDetails", cert.details.write_len(), cert.details.to_bytes(), &mut o);
@@ -748,10 +883,13 @@ pub fn check(ctx: &Ctx) {
     for n in 0..if quick { 12 } else { 60 } {
         hc.push(ShapeCase { family: 5, n });
     }
+    for n in 0..120 {
+        hc.push(ShapeCase { family: 6, n });
+    }
     ctx.run_space(
         "length_classes_mutations_composites",
         true,
-        "hashed areas sized by notation data across the subpacket / area / packet length-class boundaries (0..65400); the same subpacket in 1-, 2- and 5-octet length form (encoding must be preserved, signature must still verify); RSA keys with non-canonical MPI bit counts / leading zero octets (value preserved); user id / padding / literal bodies on both sides of 192, 256, 8384, 65536 in new and legacy framing; API mutation sequences on the unhashed area (push, insert, sort, remove) with length queries after every step; composite objects (SignedSecretKey, SignedPublicKey, details, subkeys, users, DetachedSignature): write_len = bytes, re-import equal",
+        "hashed areas sized by notation data across the subpacket / area / packet length-class boundaries (0..65400); the same subpacket in 1-, 2- and 5-octet length form (encoding must be preserved, signature must still verify); RSA keys with non-canonical MPI bit counts / leading zero octets (value preserved); user id / padding / literal bodies on both sides of 192, 256, 8384, 65536 in new and legacy framing; API mutation sequences on the unhashed area (push, insert, sort, remove) with length queries after every step; signatures built through the API with one subpacket of every constructible kind (every key flag incl. second-octet flags, feature flags, preference lists of 0/1/5 entries, ...), regular and critical; composite objects (SignedSecretKey plain and locked through the API, SignedPublicKey, details, subkeys, users, DetachedSignature): write_len = bytes, re-import equal",
         hc.into_par_iter(),
         run_shape,
     );
